@@ -3,6 +3,7 @@ package props
 import (
 	"bytes"
 	"fmt"
+	"strings"
 	"sync"
 	"testing"
 	"time"
@@ -85,7 +86,7 @@ func TestC19(t *testing.T) {
 	}
 	var jobs []job
 	for _, tg := range targets {
-		for _, sv := range []string{"tls12", "tls13", "tls13-hrr"} {
+		for _, sv := range []string{"tls12", "tls13", "tls13-hrr", "tls11"} {
 			jobs = append(jobs, job{tg, sv})
 		}
 	}
@@ -100,6 +101,12 @@ func TestC19(t *testing.T) {
 		o := OfferOf(probe, targetMinVersion(j.t))
 		scfg := peer.ServerConfig()
 		switch j.server {
+		case "tls11":
+			// RFC 5077 tickets are not tied to TLS 1.2: presets that still offer TLS 1.1
+			if !o.Has(tls.VersionTLS11) || len(o.Suites12) == 0 {
+				return
+			}
+			scfg.MaxVersion = tls.VersionTLS11
 		case "tls12":
 			if !o.Has(tls.VersionTLS12) || len(o.Suites12) == 0 {
 				return
@@ -137,10 +144,13 @@ func TestC19(t *testing.T) {
 			inspected.InspectFirst = true
 			both.InspectFirst = true
 		}
-		conns := []resConn{{j.t, "example.test", 0}, {j.t, "example.test", time.Minute}, {edited, "example.test", 2 * time.Minute}, {j.t, "example.test", 3 * time.Minute},
-			{inspected, "example.test", 4 * time.Minute}, {both, "example.test", 5 * time.Minute}, {j.t, "example.test", 6 * time.Minute}}
+		// "the same server name": also in the spellings a caller may use for it (absolute
+		// with a trailing dot, upper case) - one spelling per history
+		name := []string{"example.test", "example.test.", "EXAMPLE.test", "www.example.test", "www.Example.Test."}[fnv32("C19name|"+j.t.Name+"|"+j.server)%5]
+		conns := []resConn{{j.t, name, 0}, {j.t, name, time.Minute}, {edited, name, 2 * time.Minute}, {j.t, name, 3 * time.Minute},
+			{inspected, name, 4 * time.Minute}, {both, name, 5 * time.Minute}, {j.t, name, 6 * time.Minute}}
 		hs := runHistory(conns, scfg, cache)
-		mustResume := (j.server == "tls12" && hasTicket(j.t)) || (j.server != "tls12" && hasPSK(j.t))
+		mustResume := ((j.server == "tls12" || j.server == "tls11") && hasTicket(j.t)) || (strings.HasPrefix(j.server, "tls13") && hasPSK(j.t))
 		sig := map[string]string{"target": family(j.t.Name), "server": j.server}
 		for k, h := range hs {
 			rep := map[string]any{"case": i, "target": j.t.Name, "server": j.server, "connection": k, "err": h.ErrString()}
@@ -184,7 +194,7 @@ func TestC19(t *testing.T) {
 			}
 		}
 		_ = sig
-		r.Case(fmt.Sprintf("%s|%s|same", family(j.t.Name), j.server), true)
+		r.Case(fmt.Sprintf("%s|%s|same|%s", family(j.t.Name), j.server, name), true)
 	})
 	for k, v := range resumedBy {
 		r.Count("resumed_"+k, int64(v))
